@@ -123,7 +123,7 @@ struct Stats {
 struct Ctx {
   Stats st;
   u64 trace = 0xcbf29ce484222325ULL;
-  int cur_step = -1;
+  int cur_step = -1, cur_kind = -1;
   int progress_fd = -1;          // when >= 0, the current step index and kind are written here (crash localisation)
   bool nontrivial = false;
   std::string family;            // set by the world, part of crash fingerprints
@@ -140,7 +140,7 @@ struct Ctx {
     if (!ok) throw Violation{fingerprint, detail};
   }
   void begin_step(int idx, int kind) {
-    cur_step = idx; st.steps++;
+    cur_step = idx; cur_kind = kind; st.steps++;
     if (progress_fd >= 0) { int v[2] = { idx, kind }; ssize_t r = write(progress_fd, v, sizeof(v)); (void)r; }
   }
 };
@@ -188,8 +188,12 @@ inline Outcome run_inproc(World* w, const Plan& p, int progress_fd = -1) {
     w->execute(p, ctx);
   } catch (const Violation& v) {
     o.violation = true; o.fingerprint = v.fingerprint; o.detail = v.detail; o.at_step = ctx.cur_step;
+  } catch (const std::exception& e) {
+    // worlds catch the exceptions their oracles allow; anything that escapes is an operation on a valid object that threw
+    std::string what = e.what(); std::string norm;
+    for (char c : what) { if (c >= '0' && c <= '9') { if (norm.empty() || norm.back() != '#') norm += '#'; } else norm += c; }
+    o.violation = true; o.fingerprint = "unexpected-exception|" + ctx.family + "|" + w->step_name(ctx.cur_kind) + "|" + norm.substr(0, 80); o.detail = what; o.at_step = ctx.cur_step;
   }
-  // anything else escaping execute() is a harness bug or an unexpected library exception: worlds must classify it
   o.trace = ctx.trace; o.st = ctx.st; o.st.runs = 1; o.nontrivial = ctx.nontrivial; if (o.nontrivial) o.st.nontrivial = 1;
   return o;
 }
